@@ -512,6 +512,11 @@ def run(ctx):
     ctx.verify(cs.dispatch_engine(), cs.VERIFY_DISPATCH, min_obligations={c.key: 8 for c in cs.VERIFY_DISPATCH})
     ctx.verify(cs.attr_engine(), cs.VERIFY_ATTR, min_obligations={cs.VERIFY_ATTR[0].key: 30})
     ctx.verify(cs.named_engine(), cs.VERIFY_NAMED, min_obligations={c.key: 4 for c in cs.VERIFY_NAMED})
+    from contracts import c_simpaths as csp
+    ctx.verify(csp.engine(), csp.VERIFY, replay=csp.replay)
+    ctx.assumptions.append("export_include / export_lib: str(pathlib.Path) is modelled as the path's own text (a string "
+                           "field of the object); string methods the engine does not model (strip, lower, normpath) are "
+                           "reported as unsupported and left to the bounded family")
     ctx.verify(cs.to_proto_engine(), cs.VERIFY_TO_PROTO, min_obligations={cs.VERIFY_TO_PROTO[0].key: 8})
     ctx.functions[-1]["function"] += " [single Sim; lists of 1-3 Sims: the i-th result is that of the i-th Sim, one package]"
     key, obs, info = cs.sim_add_obligations()
